@@ -600,6 +600,14 @@ func c12Gen(r *vRand) *c12Input {
 			in.Ops = append(in.Ops, c12Op{Op: "reload"})
 		}
 	}
+	if r.chance(1, 40) {
+		// a mass downtime / acknowledgement: more new entries in one run than any per-request limit of the fetch
+		t := vPick(r, []string{"c", "d"})
+		for range 151 + r.intn(6) {
+			add(t)
+		}
+		in.Ops = append(in.Ops, c12Op{Op: "run", Table: t})
+	}
 	in.Ops = append(in.Ops, c12Op{Op: "delta"})
 
 	return in
